@@ -346,7 +346,13 @@ func newDnsWorld(w *World, chans server.Channels) (*DnsWorld, error) {
 // NewClientConn builds the real client connection over the real NetConnectionClientCommunicator
 // on top of a DgramConn.
 func (d *DnsWorld) NewClientConn() (*sdns.ClientDnsConnection, *DgramConn, error) {
-	dc := NewDgramConn(d.Comm, d.Path, 1234+len(d.Conns))
+	return d.NewClientConnPort(1234 + len(d.Conns))
+}
+
+// NewClientConnPort is NewClientConn with a chosen source port (two connections with the same
+// port are the same peer address to the server).
+func (d *DnsWorld) NewClientConnPort(port int) (*sdns.ClientDnsConnection, *DgramConn, error) {
+	dc := NewDgramConn(d.Comm, d.Path, port)
 	comm := &sdns.NetConnectionClientCommunicator{
 		Client: &dns.Client{},
 		Conn:   &dns.Conn{Conn: dc, UDPSize: 65535},
